@@ -12,15 +12,15 @@ import (
 //	Mode ill : ill-typed expression (text in arithmetic, mixed comparisons ...): weak oracle only.
 //	Mode fn  : direct call of built-in Fn with argument values Args (in- and out-of-domain) + the same call in SQL.
 type Case struct {
-	Mode string    `json:"mode"`
-	Expr *Node     `json:"expr,omitempty"`
-	Ctxs []string  `json:"ctxs,omitempty"`
-	Wrap string    `json:"wrap,omitempty"` // function used by the "arg" context
-	Rows []gen.Row `json:"rows,omitempty"`
-	Perm []int     `json:"perm,omitempty"`
-	Fn   string    `json:"fn,omitempty"`
-	Args []gen.Val `json:"args,omitempty"`
-	Lit  []bool    `json:"lit,omitempty"` // fn mode: render argument i as a literal instead of a column
+	Mode  string    `json:"mode"`
+	Expr  *Node     `json:"expr,omitempty"`
+	Ctxs  []string  `json:"ctxs,omitempty"`
+	Wrap  string    `json:"wrap,omitempty"` // function used by the "arg" context
+	Rows  []gen.Row `json:"rows,omitempty"`
+	Perm  []int     `json:"perm,omitempty"`
+	Fn    string    `json:"fn,omitempty"`
+	Args  []gen.Val `json:"args,omitempty"`
+	Lower bool      `json:"lower,omitempty"` // write and / or / not in lower case
 }
 
 var (
